@@ -4,6 +4,7 @@ let () =
   match Array.to_list Sys.argv with
   | [ _; "segments"; path ] -> Drv_segments.run path
   | [ _; "checksum"; path ] -> Drv_checksum.run path
+  | [ _; "path"; path ] -> Drv_path.run path
   | _ ->
       prerr_endline "usage: driver <component> <ops>";
       exit 2
